@@ -276,3 +276,76 @@ def h_privacy_rules(n: int, p1: int, k1: int, p2: int, k2: int, p3: int, k3: int
     with NoTracing():
         ok = run_privacy(SHAPES[sh], rules, style)
     return done(ok)
+
+
+# ------------------------------------------------------------------ K13c the code around the regular expression
+# K13a decides the regular expression translate() emits.  qnmatch() itself - caching, any pre-checks, how the compiled
+# pattern is applied - is decided here: the `re` module seen by pydoctor.qnmatch is replaced by a stub whose compiled
+# objects answer with the documented meaning of the pattern (environment stub at the library boundary), the NAME is a
+# symbolic string, and qnmatch(name, pattern) must equal the documented meaning for every name.
+import re as _real_re
+from pydoctor import qnmatch as _qn
+
+W_ALPHA = "*?[]!.a"
+W_LEN = tier(3, 4)
+W_PATTERNS = ["".join(t) for l in range(0, W_LEN + 1) for t in itertools.product(W_ALPHA, repeat=l)]
+_RX2PAT = {}
+for _p in W_PATTERNS:
+    try:
+        _RX2PAT.setdefault(_qn.translate(_p), _p)
+    except Exception:
+        pass
+
+
+class _Matcher:
+    def __init__(self, toks):
+        self.toks = toks
+
+    def match(self, name):
+        return self if ref_match(self.toks, name) else None
+
+    fullmatch = match
+
+
+class _ReStub:
+    escape = staticmethod(_real_re.escape)
+    DOTALL = _real_re.DOTALL
+    error = _real_re.error
+
+    @staticmethod
+    def compile(rx, flags=0):
+        if rx not in _RX2PAT:
+            raise KeyError("regex not produced by translate() for a pattern of this partition")
+        return _Matcher(tokens(_RX2PAT[rx]))
+
+
+NAME_LEN = tier(4, 5)
+
+
+@harness(
+    parts=lambda: list(range(0, len(W_PATTERNS), 1)), timeout=(120, 900), cls="S", tracing="symbolic-through-pydoctor", twin="first",
+    code=["pydoctor.qnmatch.qnmatch", "pydoctor.qnmatch._compile_pattern (lru_cache)", "pydoctor.qnmatch.translate (executed)"],
+    bounds={"quick": "every pattern of length <= 3 over {* ? [ ] ! . a} (400 patterns) x symbolic name of <= 4 characters (any characters)",
+            "thorough": "patterns of length <= 4 (2801) x names of <= 5 characters"},
+    stubs=["the `re` module as seen by pydoctor.qnmatch: compile(regex) returns a matcher implementing the documented meaning of the pattern the regex was translated from (K13a decides that the real regex has that meaning)"],
+    outside="names longer than the bound for the wrapper logic (the regex itself is decided for all lengths in K13a)",
+)
+def h_qnmatch_wrapper(name: str) -> bool:
+    """
+    pre: len(name) <= NAME_LEN
+    post: _
+    """
+    pat = W_PATTERNS[PART if PART is not None else 5]
+    toks = tokens(pat)
+    saved = _qn.re
+    _qn.re = _ReStub
+    try:
+        if hasattr(_qn._compile_pattern, "cache_clear"):
+            _qn._compile_pattern.cache_clear()
+        got = _qn.qnmatch(name, pat)
+    finally:
+        _qn.re = saved
+        if hasattr(_qn._compile_pattern, "cache_clear"):
+            _qn._compile_pattern.cache_clear()
+    want = ref_match(toks, name)
+    return done(bool(got) == want)
